@@ -230,6 +230,9 @@ func Run(c *gen.Ctx) error {
 	meta.Rule = "12 pinned deferred operations (several labels per object, one label used by two fragments around other fields, groups inside lists, nested groups, if: false / variable, spreads, a field both deferred and not, @defer at the root) plus random valid operations with @defer on inline fragments and spreads (any if/label) x oracles with 0-2 failures (error, panic, null) anywhere and random resolver delays (completion orders) on probe servers generated from the current templates; all payloads recorded in arrival order. distinct_nontrivial = distinct (operation, oracle) with at least two incremental payloads."
 	meta.Samples = []any{descrs[0], descrs[len(descrs)/2]}
 	meta.Distribution = map[string]any{"operations": len(ops), "plans": len(plan), "configurations": len(probes), "generated_but_invalid_discarded": invalid, "payload_counts": stats}
+	if err := listGroups(c, probes, meta); err != nil {
+		return err
+	}
 	return meta.Write(c.OutDir)
 }
 
